@@ -594,6 +594,21 @@ func runC08(c *fw.Ctx) {
 			strata = append(strata, s)
 		}
 	}
+	strata = append(strata,
+		stratum{"save-names", with(func(c *gen.LCfg) {
+			// saves from accounts whose names resemble @world
+			c.Accounts = []string{"a", "world:treasury", "World", "WORLD", "worlds", "world:a", "a:world"}
+			c.Assets = []string{"USD"}
+			c.PSave, c.PWorld, c.PUnbounded, c.PNegBal, c.MinStmts, c.MaxStmts, c.Depth = 40, 3, 5, 10, 2, 4, 1
+		}), 1},
+		stratum{"save-longsrc", with(func(c *gen.LCfg) {
+			// saves between statements that draw from dozens of funded accounts
+			c.Accounts = manyAccountsL(80)
+			c.Assets = []string{"USD"}
+			c.PSave, c.PLongSrc, c.PFunded, c.Fanout, c.PRepeat, c.PSaveDrawn = 30, 70, 90, 70, 5, 60
+			c.PWorld, c.PUnbounded, c.PBig, c.PNegBal, c.MinStmts, c.MaxStmts, c.Depth = 3, 3, 0, 0, 3, 5, 1
+		}), 1},
+	)
 	forEachCase(strata, c.N(60000, 1500000), func(i int, id string, st *stratum, k int) {
 		if !c.Want(100000+i, id) {
 			return
